@@ -1511,7 +1511,9 @@ def singles(ns, full):
             for pos in range(n):
                 for f in ALL_INJ:
                     nm = f.__name__
-                    fam_list = FAMILIES if (full or f in MODEL_INJ or f in FIT_INJ) else [FAMILIES[(n + pos) % 8]]
+                    # the carrier family matters for the description and fit classes; the others rotate through two
+                    fam_list = FAMILIES if (f in MODEL_INJ or f in FIT_INJ) else \
+                        ([FAMILIES[(n + pos + si) % 8], FAMILIES[(n + pos + si + 4) % 8]] if full else [FAMILIES[(n + pos) % 8]])
                     for fi, fam in enumerate(fam_list):
                         nv = NVARIANTS.get(nm, 3)
                         for v in (range(nv) if full else [(n + pos + fi + si) % nv]):
@@ -1666,8 +1668,9 @@ def run(ctx):
             continue
         cls = spec["mal"][0]["cls"]
         per_cls[cls] = per_cls.get(cls, 0) + 1
-        if quick and per_cls[cls] > (10 if spec["fit"] is not None else 25):
-            continue          # quick tier: the first controls of every class; thorough: all of them
+        cap = (10, 25) if quick else (150, 400)
+        if per_cls[cls] > cap[0 if spec["fit"] is not None else 1]:
+            continue          # the first controls of every class (quick: 10 with fit / 25 without; thorough: 150 / 400)
         c = control_of(spec)
         if c is None:
             continue
